@@ -156,6 +156,8 @@ def clientLine (k : Key) (body pad : List Char) : List Char :=
 
 /-! ### agent -/
 
+/-- an identity the agent lists; `isCert = false` for plain keys and for identities whose blob
+`ssh.ParsePublicKey` rejects (both are skipped by `deleteDuplicateEntries`) -/
 structure Entry where
   comment : List Char
   blob : Nat        -- identity of the public key / certificate blob
